@@ -204,6 +204,11 @@ class Exec(Engine):
                               else VStr(fresh('fstr', Str))))
         return out
 
+    def ev_Slice(self, e, st):
+        if e.lower is None and e.upper is None and e.step is None:
+            return [Result(st, VSlice(None, None))]
+        raise EngineError('%s: slice with bounds inside a tuple index' % self.rel)
+
     def ev_Set(self, e, st):
         acc, excs = self.ev_list(e.elts, st)
         return [Result(s, VTuple(vals)) for s, vals in acc] + excs
@@ -363,6 +368,16 @@ class Exec(Engine):
             if isinstance(n, Arr):
                 if idx.kind == 'tuple' or idx.kind == 'slice':
                     raise EngineError('%s:%d: multi-dimensional index' % (self.rel, line))
+                if idx.kind == 'ref' and isinstance(st.node(idx), Arr) and st.node(idx).elem == 'int':
+                    # a[int array]: gather
+                    f = st.node(idx)
+                    k = fresh('k', I)
+                    self.oblige(st, 'index-bounds', z3.ForAll([k], z3.Implies(z3.And(0 <= k, k < f.n),
+                                                                              z3.And(0 <= f.a[k], f.a[k] < n.n))), line)
+                    st = st.copy()
+                    out = fresh('gather', n.a.sort())
+                    st.assume(z3.ForAll([k], out[k] == n.a[f.a[k]], patterns=[out[k]]))
+                    return [Result(st, st.alloc(Arr(n.elem, out, f.n, n.flavour)))]
                 t = to_int(idx)
                 self.oblige(st, 'index-bounds', z3.And(t >= 0, t < n.n), line)
                 return [Result(st, self.wrap(n.elem, n.a[t]))]
@@ -851,6 +866,12 @@ class Exec(Engine):
         return m(s, st)
 
     def st_Pass(self, s, st):
+        return [Result(st)]
+
+    def st_Import(self, s, st):
+        st = st.copy()
+        for a in s.names:
+            st.env[(a.asname or a.name).split('.')[0]] = VMod((a.asname or a.name).split('.')[0])
         return [Result(st)]
 
     def st_Expr(self, s, st):
